@@ -127,6 +127,12 @@ class RT:
     def assign(self, old, new):
         return ite(self.cur_assign(), new, old)
 
+    def assign_iter(self, old, new):
+        # loop-variable binding: independent of the item's own guard (values only matter under it anyway),
+        # which keeps positions concrete when iterating a guarded index sequence
+        f = self.frames[-1]
+        return ite(b_and(self.guards[-2], b_not(f.loops[-1][1])), new, old)
+
     def store(self, arr, idx, val):
         self.stats["stores"] += 1
         if not hasattr(arr, "store"):
